@@ -148,7 +148,8 @@ FVAR = [("none", b""), ("description", b"description = F $@X@ $out\n"), ("depfil
 #  c   binds x then a build using parent's rule  d   own rule + build
 #  f   re-defines the parent's rule name, then builds with it
 #  ph  a phony build
-INC = ["none"] + ["%s:%s" % (k, c) for c in ("b", "a", "c", "d", "f", "ph") for k in ("include", "subninja")
+#  s   binds x to a value that refers to the INHERITED x (x = ${x}s), then a build using the parent's rule
+INC = ["none"] + ["%s:%s" % (k, c) for c in ("b", "a", "c", "d", "f", "ph", "s") for k in ("include", "subninja")
                   if (k, c) != ("include", "f")]  # include:f = duplicate rule, always rejected by ninja
 INCPOS = ["pre", "post"]
 B1_NEXP = ["1", "0", "2"]
@@ -233,7 +234,7 @@ def valid(a):
         kind, child = inc.split(":")
         # post-position include of a child that binds x would re-bind a file-level
         # variable after build statements that read it: excluded by the statement.
-        if kind == "include" and child in ("a", "c"):
+        if kind == "include" and child in ("a", "c", "s"):
             return False
     if g("b3") and not g("b2"):
         return False
@@ -392,6 +393,7 @@ def render(a):
             "d": b"rule rc\n  command = true RC $in $out " + X(b"$@X@") + b"\nbuild oc: rc ic\n",
             "f": b"rule " + rname + b"\n  command = true CHILD $in $out " + X(b"$@X@") + b"\nbuild oc: " + rname + b" ic\n",
             "ph": b"build oc: phony ic\n",
+            "s": X(b"@X@ = ${@X@}s\n") + b"build oc: " + rname + b" ic\n",
         }[child]
         files[CHILD] = body
 
